@@ -347,7 +347,7 @@ DEC_STEP = [1, 2, 5, 10, 20, 50, 100, 1000, 5000, 3, 7]
 
 @st.composite
 def window_st(draw):
-    T = draw(st.integers(2, 10))
+    T = draw(st.one_of(st.integers(2, 10), st.integers(2, 10), st.integers(11, 24)))
     N = draw(st.integers(1, 6))
     cplx = draw(st.booleans())
     prop = draw(prop_st(T, N, 0, cplx))
@@ -369,8 +369,20 @@ def window_st(draw):
         step = draw(st.sampled_from(DEC_STEP))
         period = float("%.10g" % (w * step * dt))   # the decimal number a user would type
     t0 = draw(st.one_of(st.just(0), st.integers(0, 10**7)))
+    # dynamic range: "the mean over the window of w consecutive frames starting at n" depends on those frames only.  A
+    # quantity relaxing over many decades, or one large early value, must not leak into later windows (a running-total
+    # implementation -- cumulative sum, add-new/subtract-old -- loses every window that is small against the total).
+    rng = draw(st.sampled_from(["flat", "flat", "relaxing", "early-outlier", "late-outlier"]))
+    if rng == "relaxing":
+        dec = draw(st.sampled_from([0.5, 1.0, 2.0, 3.0]))
+        prop = prop * (10.0 ** (-dec * np.arange(T)))[:, None]
+    elif rng in ("early-outlier", "late-outlier"):
+        k = 0 if rng == "early-outlier" else T - 1
+        j = draw(st.integers(0, N - 1))
+        prop = prop.copy()
+        prop[k, j] = prop[k, j] * 10.0 ** draw(st.sampled_from([6, 12, 18])) + 10.0 ** draw(st.sampled_from([6, 12, 18]))
     return {"prop": prop, "w": w, "mode": mode, "dt": float(dt), "step": int(step), "period": float(period), "t0": t0,
-            "npint": draw(st.booleans())}
+            "npint": draw(st.booleans()), "range": rng}
 
 
 def check_window(case):
@@ -401,8 +413,15 @@ def check_window(case):
         require(w_obs == w, f"time_average: {R} rows for T={T} and window of floor({case['period']!r}/"
                             f"({case['step']}*{case['dt']!r})) = {w} frames (expected {T - w})")
     want = cgref.window_means(prop, w_obs)[:R]
-    scale = max(1.0, float(np.abs(prop).max()))
-    close(f"time_average values (window {w_obs} frames)", vals, want, rtol=1e-10, atol=1e-12 * scale)
+    # accuracy is asserted against the magnitude of the values INSIDE each window (per row and particle): a direct mean
+    # of w numbers is accurate to w * eps * max|window|, whatever the rest of the series holds
+    wmax = np.stack([np.abs(prop[n:n + w_obs]).max(axis=0) for n in range(R)]) if R else np.zeros((0, N))
+    bad = np.abs(vals - want) > 1e-10 * np.abs(want) + 1e-12 * np.maximum(wmax, 1e-290)
+    if bad.any():
+        n, j = [int(x[0]) for x in np.nonzero(bad)]
+        raise Violation(f"time_average values (window {w_obs} frames): row {n}, particle {j}: got {vals[n, j]!r}, mean of "
+                        f"frames {n}..{n + w_obs - 1} is {want[n, j]!r} (largest |value| in that window {wmax[n, j]!r}, "
+                        f"largest in the series {float(np.abs(prop).max())!r})")
     require(np.all(np.isreal(idx)) and np.all(np.asarray(idx, dtype=float) == np.round(np.asarray(idx, dtype=float))),
             f"time_average: non-integer frame indices {idx.tolist()}")
     fi = np.asarray(idx, dtype=float)
@@ -417,6 +436,8 @@ def check_window(case):
             "t0-zero" if case["t0"] == 0 else "t0-offset"]
     if mode == "decimal" and w_obs != w:
         tags.append("decimal-rounded-down")
+    tags.append("range-" + case.get("range", "flat"))
+    tags.append("T<=10" if T <= 10 else "T11-24")
     nontrivial = bool(w_obs >= 2 and R >= 2)
     return {"nontrivial": nontrivial, "tags": tags}
 
